@@ -16,7 +16,8 @@ LEVEL_NOTE = ("Layered: the refractive indices n_p, n_s, n_i (beam.refractive_in
               "angles/directions/frequencies as returned by the public getters, and the poling are INPUTS of the K ops; "
               "model fidelity is checked on generated cases, not proved. Theorems are over ℝ; rounding is measured only. "
               "The S predicates recompute wave vectors from first principles (own direction formula, CrystalSetup::index_along, "
-              "n ω / c). Counter-propagation and backward signal angles (|θs| > π/2) are tied by K only (outside the statement's "
+              "n ω / c), also on SPDC objects after mutation histories (every idler-deriving route; K ties the object's idler to the model too). "
+              "Counter-propagation and backward signal angles (|θs| > π/2) are tied by K only (outside the statement's "
               "quantifier).")
 OPS = {"opt_idler", "delta_k", "k_eff", "dk_wavevector"}
 TOL = {"opt_idler": ("ulp", 4), "delta_k": ("rel", 1e-12, 1e-8), "k_eff": ("ulp", 2), "dk_wavevector": ("ulp", 4)}
@@ -24,7 +25,12 @@ DEFAULT_TOL = ("exact",)
 RULE = ("family dk: 11 crystals × 5 PM types × crystal θ ∈ [0,π/2] (plus {0, π/2, any}) × φ × T 0–100 °C × in-window pump/signal "
         "wavelengths with idler in-window (¼ degenerate) × |θs| ≤ 0.3 (incl. 0 and log-small; 1/5 negative, own signatures) × φs × "
         "poling {off, ±Λ log-uniform 0.3 µm–1 mm}; ¼ of the cases also through the SPDC object (SPDC::optimum_idler, SPDC::delta_k); "
-        "plus K-only streams (counter-propagation, backward θs, φs ∈ [−7,13]) and the error stream λs ≤ λp (equal, swapped, 1e-12 below)")
+        "plus K-only streams (counter-propagation, backward θs, φs ∈ [−7,13]) and the error stream λs ≤ λp (equal, swapped, 1e-12 below); "
+        "n/12 sessions on ONE SPDC object: 2–7 rounds of 1–3 mutations (pm_type among all five with beam polarizations, signal "
+        "wavelength/angles/azimuth incl. negative θs, signed poling, crystal orientation, crystal+wavelengths) each followed by a route "
+        "that derives the idler (assign_optimum_idler ×2, with_optimum_idler, optimum_idler, try_as_optimum, as_config→idler:\"auto\"→"
+        "try_as_spdc) and by ALL clauses on the resulting object (signatures route/<route>/<clause>), plus the λs ≤ λp error clause "
+        "through the object's methods")
 RESIDUAL = "none beyond floating-point rounding (the index values are C01/C02's)"
 ASSUMPTIONS = ["refractive indices are inputs of the model (layer C02)", "UCUM base values: M = RAD = 1.0, so x*M/RAD is the identity"]
 CHECKER_MODULES = ["Spdc.Real.DeltaK"]
